@@ -17,10 +17,11 @@ From CG Require Import Proofs.TablesSound Proofs.TablesKeys Proofs.TableLookup P
      Proofs.WordTokens Proofs.SubwordMatch Proofs.SubwordComplete Proofs.WordSim Proofs.LevelsFacts
      Proofs.BashMeaningLit Proofs.BashMeaningTop Proofs.SubwordFacts.
 
-(** no two within-word automata with the same language are inputs of the main automaton *)
-Definition subs_canonical (c : cdfa) : Prop :=
-  forall k k' l l', In (ISub k l) (d_inputs (c_main c)) -> In (ISub k' l') (d_inputs (c_main c)) ->
-    (forall v, Lang.waccepts (sub_dfa c k) v <-> Lang.waccepts (sub_dfa c k') v) -> k = k'.
+(** within-word automata with the same language under the same level are not alternatives at a
+    state: their transitions lead to the same state *)
+Definition subs_deterministic (c : cdfa) : Prop :=
+  forall s k k' l t t', trans_on (c_main c) s (ISub k l) t -> trans_on (c_main c) s (ISub k' l) t' ->
+    (forall v, Lang.waccepts (sub_dfa c k) v <-> Lang.waccepts (sub_dfa c k') v) -> t = t'.
 
 (** the literal orders handed to the emitter for the within-word automata are valid *)
 Definition sub_orders_ok (c : cdfa) (os : list (N * list (string * string))) : Prop :=
@@ -165,7 +166,7 @@ Section Sub.
   Hypothesis Hdom : C01_domain e = true.
   Hypothesis Hsubs : forall k l, In (ISub k l) (d_inputs (c_main c)) ->
                                  exists sd, nth_error (c_subs c) (N.to_nat k) = Some sd /\ sub_ok sd.
-  Hypothesis Hcanon : subs_canonical c.
+  Hypothesis Hcanon : subs_deterministic c.
   Hypothesis Hsords : sub_orders_ok c os.
   Hypothesis Hic : e_ignore_case benv = false.
   Hypothesis Hpr : printable_str p = true.
@@ -178,13 +179,15 @@ Section Sub.
   Lemma Hglt' : get_lookup_tables d (a_commands a) 0 (n_top_cmd nd) false (n_top_star nd) om = Ok T.
   Proof. destruct (all_tables_inv _ _ _ _ _ _ Hall) as [rt F]. exact (af_main _ _ _ _ _ _ _ F). Qed.
 
-  Lemma lrel_fun' : forall a0 x x', lrel c a0 x -> lrel c a0 x' -> In x (d_inputs d) -> In x' (d_inputs d) -> x = x'.
+  Lemma lrel_det' : forall s a0 x x' t t', lrel c a0 x -> lrel c a0 x' -> trans_on d s x t -> trans_on d s x' t' -> t = t'.
   Proof.
-    intros a0 x x' H1 H2 I1 I2. destruct (plain_leaf a0) eqn:Hp.
-    - apply (lrel_plain c a0 x Hp) in H1. apply (lrel_plain c a0 x' Hp) in H2. congruence.
+    intros s a0 x x' t t' H1 H2 T1 T2. destruct (plain_leaf a0) eqn:Hp.
+    - apply (lrel_plain c a0 x Hp) in H1. apply (lrel_plain c a0 x' Hp) in H2. subst x x'.
+      destruct T1 as [i [Hs1 Hn1]]. destruct T2 as [j [Hs2 Hn2]].
+      rewrite (nthN_inj d Hinp i j _ Hn1 Hn2) in Hs1. rewrite Hs1 in Hs2. inversion Hs2. reflexivity.
     - destruct a0 as [| | | x0 l]; cbn in Hp; try discriminate.
       apply lrel_sub in H1. apply lrel_sub in H2. destruct H1 as [k [-> E1]]. destruct H2 as [k' [-> E2]].
-      f_equal. apply (Hcanon k k' l l I1 I2). intro v. rewrite E1, E2. reflexivity.
+      apply (Hcanon s k k' l t t' T1 T2). intro v. rewrite E1, E2. reflexivity.
   Qed.
 
   Record rel (s : N) (S : state) : Prop := {
@@ -335,7 +338,7 @@ Section Sub.
     rel t (step en S w).
   Proof.
     intros R Hamb Hne' Hs Hn HS'. constructor.
-    - apply (rsim_step c Hinp lrel_fun' s S i t x (step en S w) (rel_sim _ _ R) Hs Hn HS').
+    - apply (rsim_step c lrel_det' s S i t x (step en S w) (rel_sim _ _ R) Hs Hn HS').
     - intros k Hk. apply HS' in Hk. destruct Hk as [a0 [Hin _]]. apply (move_facts s S a0 k R Hin).
     - intros k Hk. apply HS' in Hk. destruct Hk as [a0 [Hin _]]. apply (move_facts s S a0 k R Hin).
     - destruct (step_istep en S w Hamb Hne') as [a' [Ha' Hi]].
@@ -545,5 +548,203 @@ Section Sub.
         * rewrite Hspec. rewrite run_nil.
           destruct (t_mcmd T) as [ct |] eqn:Ect; [rewrite (mcmd_none s S ct R Ect) |]; cbn [obind];
             rewrite (mstar_none s S R); reflexivity.
+  Qed.
+
+  (** *** completion *)
+  Definition lit_offered (s : N) (L : nat) : list string :=
+    filter (String.prefix p) (map (fun id => append (literal_at T id) " ") (level_row (t_clit T) L s)).
+
+  Lemma lit_offered_spec s S L o : rel s S ->
+    (In o (lit_offered s L) <-> exists t d0 k, In (LLit t d0 (N.of_nat L), k) (moves S) /\ o = append t " " /\ String.prefix p o = true).
+  Proof.
+    intro R. unfold lit_offered. rewrite filter_In, in_map_iff. split.
+    - intros [[id [<- Hid]] Hp]. rewrite <- (Nat2N.id L) in Hid.
+      apply (level_row_lit d (a_commands a) _ _ _ om T Hwf Hord Hglt') in Hid. destruct Hid as [text [dso [to [Htr Hl]]]].
+      rewrite (literal_at_lit d (a_commands a) _ _ _ om T Hglt' id text _ Hl) in *.
+      destruct (trans_lit_item s S text dso _ to R Htr) as [k Hin]. exists text, dso, k. split; [exact Hin | split; [reflexivity | exact Hp]].
+    - intros [t [d0 [k [Hin [-> Hp]]]]]. destruct (item_lit_trans s S t d0 _ k R Hin) as [to Htr].
+      pose proof Htr as [i [_ Hn]]. destruct (valid_order_covers d om 0 i t d0 _ Hvalid Hn) as [id Hl].
+      split; [| exact Hp]. exists id. split; [rewrite (literal_at_lit d (a_commands a) _ _ _ om T Hglt' id t _ Hl); reflexivity |].
+      rewrite <- (Nat2N.id L). apply (level_row_lit d (a_commands a) _ _ _ om T Hwf Hord Hglt'). eauto.
+  Qed.
+
+  Lemma csub_keys : Forall (fun lv : list (N * list N) => NoDup (map fst lv)) (a_csub a).
+  Proof. destruct (all_tables_inv _ _ _ _ _ _ Hall) as [rt F]. eapply completion_table_keys. apply (af_csub _ _ _ _ _ _ _ F). Qed.
+
+  Lemma csub_row s L sid :
+    In sid (level_row (a_csub a) L s) <->
+    exists rt pi to, rtrans d = Ok rt /\ trans_on d s (ISub pi (N.of_nat L)) to /\ assocN pi (get_subwords rt 0) = Some sid.
+  Proof.
+    rewrite <- (csub_exact Bash c om os nd a Hwf Hall (N.of_nat L) s sid).
+    rewrite (mem3_level_row (a_csub a) (N.of_nat L) s sid csub_keys). rewrite Nat2N.id. unfold level_row. reflexivity.
+  Qed.
+
+  Lemma sub_adds s S L matches log : rel s S ->
+    exists adds, top_subs_level Repaired a benv (level_row (a_csub a) L s) p matches log = Ok (matches ++ adds, log)
+      /\ forall o, In o adds <-> exists x0 k0, In (LSub x0 (N.of_nat L), k0) (moves S) /\ In o (wproper en x0 p).
+  Proof.
+    intro R.
+    assert (Hsid : forall sid, In sid (level_row (a_csub a) L s) ->
+               exists x0 k0 Tw reply, In (LSub x0 (N.of_nat L), k0) (moves S) /\ subword_tables (a_subwords a) sid = Some Tw
+                 /\ (forall log', subword_complete Repaired a benv Tw p log' = Ok (reply, log'))
+                 /\ forall o, In o reply <-> In o (wproper en x0 p)).
+    { intros sid Hin. apply csub_row in Hin. destruct Hin as [rt [pi [to [Hrt [Htr Hid]]]]].
+      destruct (trans_sub_item s S pi _ to R Htr) as [x0 [k0 [Hmv Hl]]].
+      destruct (sub_match s S pi _ to x0 k0 R Htr Hmv Hl) as [id [Tw [_ [HT [_ [Hids [_ [reply [Hc Hspec]]]]]]]]].
+      rewrite (Hids rt Hrt) in Hid. inversion Hid; subst id.
+      exists x0, k0, Tw, reply. split; [exact Hmv | split; [exact HT | split; [exact Hc | exact Hspec]]]. }
+    destruct (top_subs_level_spec a benv p (level_row (a_csub a) L s) matches log) as [adds [Hr Hspec]].
+    { intros sid Hin. destruct (Hsid sid Hin) as [x0 [k0 [Tw [reply [_ [HT [Hc _]]]]]]]. exists Tw, reply. split; assumption. }
+    exists adds. split; [exact Hr |]. intro o. rewrite Hspec. split.
+    - intros [sid [Tw' [reply' [Hin [HT' [Hc' Ho]]]]]].
+      destruct (Hsid sid Hin) as [x0 [k0 [Tw [reply [Hmv [HT [Hc Hsp]]]]]]].
+      rewrite HT in HT'. inversion HT'; subst Tw'. pose proof (Hc []) as E1. rewrite (Hc' []) in E1. inversion E1; subst reply'.
+      exists x0, k0. split; [exact Hmv | apply Hsp; exact Ho].
+    - intros [x0 [k0 [Hmv Ho]]].
+      destruct (item_sub_trans s S x0 _ k0 R Hmv) as [pi [t [Hl Htr]]].
+      destruct (sub_match s S pi _ t x0 k0 R Htr Hmv Hl) as [id [Tw [_ [HT [_ [Hids [_ [reply [Hc Hsp]]]]]]]]].
+      destruct (all_tables_inv _ _ _ _ _ _ Hall) as [rt F]. pose proof (af_rt _ _ _ _ _ _ _ F) as Hrt.
+      exists id, Tw, reply. split; [| split; [exact HT | split; [exact Hc | apply Hsp; exact Ho]]].
+      apply csub_row. exists rt, pi, t. split; [exact Hrt | split; [exact Htr | apply (Hids rt Hrt)]].
+  Qed.
+
+  Lemma ccmd_none s S cc L : rel s S -> t_ccmd T = Some cc -> level_row cc L s = [].
+  Proof.
+    intros R Hcc. destruct (level_row cc L s) as [| id r] eqn:E; [reflexivity | exfalso].
+    destruct (glt_inv _ _ _ _ _ _ _ _ Hglt') as [rt F].
+    assert (K : Forall (fun lv : list (N * list N) => NoDup (map fst lv)) cc).
+    { destruct (gf_ccmd _ _ _ _ _ _ _ _ _ F) as [[_ [m [Hm Em]]] | [_ Em]]; rewrite Em in Hcc; [| discriminate].
+      inversion Hcc; subst m. eapply completion_table_keys. exact Hm. }
+    assert (M : mem3 cc (N.of_nat L) s id).
+    { apply (mem3_level_row cc (N.of_nat L) s id K). rewrite Nat2N.id. unfold level_row in E. rewrite E. left; reflexivity. }
+    apply (ccmd_exact d (a_commands a) 0 _ _ _ om T Hwf Hglt' cc (N.of_nat L) s id Hcc) in M.
+    destruct M as [cm [to [Htr _]]].
+    destruct (trans_class s S _ to R Htr) as [[w' [d' [l' Eq]]] | [pi [l' Eq]]]; discriminate.
+  Qed.
+
+  Lemma match_or_nil l : (match l with [] => Ok [] | _ => match_fn benv p l end) = Ok (filter (String.prefix p) l).
+  Proof. destruct l as [| x l]; [reflexivity |]. apply (match_fn_prefix_filter benv p _ Hic Hpr). Qed.
+
+  (** the candidates of the specification, level by level *)
+  Lemma level_cands_spec S l o :
+    In (l, o) (state_cands en S p) <->
+    (exists t d0 k, In (LLit t d0 l, k) (moves S) /\ o = append t " " /\ String.prefix p o = true)
+    \/ (exists x0 k0, In (LSub x0 l, k0) (moves S) /\ In o (wproper en x0 p))
+    \/ (exists cm k0, In (LCmd cm l, k0) (moves S) /\ In o (filter (String.prefix p) (candidates en cm))).
+  Proof.
+    unfold state_cands. rewrite in_flat_map. split.
+    - intros [[a0 k] [Hin H]]. cbn [fst] in H. destruct a0 as [t0 d0 l0 | cm l0 | | x0 l0]; cbn [item_cands] in H.
+      + destruct (String.prefix p (append t0 " ")) eqn:Ep; [| destruct H]. destruct H as [E | []]. inversion E; subst.
+        left. exists t0, d0, k. split; [exact Hin | split; [reflexivity | exact Ep]].
+      + apply in_map_iff in H. destruct H as [o' [E Ho]]. inversion E; subst. right; right. exists cm, k. split; assumption.
+      + destruct H.
+      + apply in_map_iff in H. destruct H as [o' [E Ho]]. inversion E; subst. right; left. exists x0, k. split; assumption.
+    - intros [[t [d0 [k [Hin [-> Hp]]]]] | [[x0 [k0 [Hin Ho]]] | [cm [k0 [Hin Ho]]]]].
+      + exists (LLit t d0 l, k). split; [exact Hin |]. cbn [fst item_cands]. rewrite Hp. left; reflexivity.
+      + exists (LSub x0 l, k0). split; [exact Hin |]. cbn [fst item_cands]. apply in_map_iff. exists o. split; [reflexivity | exact Ho].
+      + exists (LCmd cm l, k0). split; [exact Hin |]. cbn [fst item_cands]. apply in_map_iff. exists o. split; [reflexivity | exact Ho].
+  Qed.
+
+  Lemma no_cmd_item s S cm l k : rel s S -> ~ In (LCmd cm l, k) (moves S).
+  Proof. intros R Hin. destruct (move_facts s S _ k R Hin) as [Hsl _]. exact Hsl. Qed.
+
+  (** one level of the script's completion loop *)
+  Lemma level_body s S L log : rel s S ->
+    exists m3, top_subs_level Repaired a benv (level_row (a_csub a) L s) p ([] ++ lit_offered s L) log = Ok (m3, log)
+      /\ forall o, In o m3 <-> In (N.of_nat L, o) (state_cands en S p).
+  Proof.
+    intro R. destruct (sub_adds s S L ([] ++ lit_offered s L) log R) as [adds [Hr Hspec]].
+    exists (([] ++ lit_offered s L) ++ adds). split; [exact Hr |].
+    intro o. cbn [List.app]. rewrite in_app_iff, (lit_offered_spec s S L o R), Hspec, level_cands_spec. split.
+    - intros [H | H]; [left; exact H | right; left; exact H].
+    - intros [H | [H | [cm [k0 [Hin _]]]]]; [left; exact H | right; exact H | exfalso; apply (no_cmd_item s S cm _ k0 R Hin)].
+  Qed.
+
+  Lemma top_levels_spec s S : rel s S -> forall n L cands log,
+    exists reply, top_levels n L Repaired a benv s p cands [] log = Ok (reply, log)
+      /\ ((exists j m, (L <= j < L + n)%nat /\ m <> [] /\ (forall o, In o m <-> In (N.of_nat j, o) (state_cands en S p))
+                        /\ (forall i o, (L <= i < j)%nat -> ~ In (N.of_nat i, o) (state_cands en S p))
+                        /\ reply = map (Meaning.strip (Meaning.e_wordbreaks en) p) m)
+          \/ ((forall i o, (L <= i < L + n)%nat -> ~ In (N.of_nat i, o) (state_cands en S p)) /\ reply = [])).
+  Proof.
+    intro R. induction n as [| n IH]; intros L cands log.
+    - exists []. split; [reflexivity |]. right. split; [intros i o Hi; lia | reflexivity].
+    - cbn [top_levels quirky]. cbn [List.app]. rewrite match_or_nil. cbn [obind]. fold (lit_offered s L).
+      destruct (level_body s S L log R) as [m3 [Hr Hspec]]. cbn [List.app] in Hr. rewrite Hr. cbn [obind].
+      match goal with |- context [obind ?X _] =>
+        assert (Hcc : X = Ok (map (fun id => append (literal_at T id) " ") (level_row (t_clit T) L s), m3, log))
+          by (destruct (t_ccmd T) as [cc |] eqn:Ecc; [rewrite (ccmd_none s S cc L R Ecc); reflexivity | reflexivity]);
+        rewrite Hcc
+      end. cbn [obind].
+      destruct m3 as [| o0 m3'] eqn:Em.
+      + destruct (IH (Datatypes.S L) (map (fun id => append (literal_at T id) " ") (level_row (t_clit T) L s)) log) as [reply [Hrep Hcase]].
+        exists reply. split; [exact Hrep |]. destruct Hcase as [[j [m [Hj [Hm [Hin [Hfirst Hreply]]]]]] | [Hnone Hreply]].
+        * left. exists j, m. split; [lia | split; [exact Hm | split; [exact Hin | split; [| exact Hreply]]]].
+          intros i o Hi Hc. destruct (Nat.eq_dec i L) as [-> | Ne]; [apply Hspec in Hc; destruct Hc | apply (Hfirst i o); [lia | exact Hc]].
+        * right. split; [| exact Hreply]. intros i o Hi Hc.
+          destruct (Nat.eq_dec i L) as [-> | Ne]; [apply Hspec in Hc; destruct Hc | apply (Hnone i o); [lia | exact Hc]].
+      + rewrite <- Em in *.
+        assert (Hpre : forall m, In m m3 -> String.prefix p m = true).
+        { intros m Hm. apply Hspec in Hm. apply (state_cands_prefix en S p _ m Hm). }
+        rewrite (Hstrip m3 Hpre). cbn [obind]. eexists. split; [reflexivity |].
+        left. exists L, m3. split; [lia | split; [rewrite Em; discriminate | split; [exact Hspec | split; [intros i o Hi; lia | reflexivity]]]].
+  Qed.
+
+  Lemma cand_level_range s S l o : rel s S -> In (l, o) (state_cands en S p) -> (N.to_nat l < Datatypes.S (N.to_nat (t_maxlevel T)))%nat.
+  Proof.
+    intros R Hin. apply level_cands_spec in Hin. destruct Hin as [[t [d0 [k [Hmv _]]]] | [[x0 [k0 [Hmv _]]] | [cm [k0 [Hmv _]]]]].
+    - destruct (item_lit_trans s S t d0 l k R Hmv) as [to Htr].
+      apply (level_in_range d (a_commands a) _ _ _ om T Hwf Hord Hglt' l s t d0 to Hvalid Htr).
+    - destruct (item_sub_trans s S x0 l k0 R Hmv) as [pi [t [Hl Htr]]].
+      destruct (sub_match s S pi l t x0 k0 R Htr Hmv Hl) as [id [Tw [_ [_ [_ [Hids _]]]]]].
+      destruct (all_tables_inv _ _ _ _ _ _ Hall) as [rt F]. pose proof (af_rt _ _ _ _ _ _ _ F) as Hrt.
+      assert (M : mem3 (a_csub a) l s id).
+      { apply (csub_exact Bash c om os nd a Hwf Hall l s id). exists rt, pi, t. split; [exact Hrt | split; [exact Htr | apply (Hids rt Hrt)]]. }
+      destruct M as [row [Hrow _]].
+      destruct (completion_table_spec _ _ _ _ _ push_in (af_csub _ _ _ _ _ _ _ F)) as [Hlen _].
+      assert (N.to_nat l < List.length (a_csub a))%nat by (apply nth_error_Some; rewrite Hrow; discriminate). lia.
+    - exfalso. apply (no_cmd_item s S cm l k0 R Hmv).
+  Qed.
+
+  Theorem levels_lowest_sub s S log : rel s S ->
+    exists reply, top_levels (Datatypes.S (N.to_nat (t_maxlevel T))) 0 Repaired a benv s p [] [] log = Ok (reply, log)
+      /\ forall x, In x reply <-> In x (map (Meaning.strip (Meaning.e_wordbreaks en) p) (lowest (state_cands en S p))).
+  Proof.
+    intro R. destruct (top_levels_spec s S R (Datatypes.S (N.to_nat (t_maxlevel T))) 0%nat [] log) as [reply [Hr Hcase]].
+    exists reply. split; [exact Hr |]. intro x.
+    destruct Hcase as [[j [m [Hj [Hm [Hin [Hfirst ->]]]]]] | [Hnone ->]].
+    - rewrite !in_map_iff. split; intros [o [Eo Ho]]; exists o; (split; [exact Eo |]).
+      + apply lowest_spec. exists (N.of_nat j). split; [apply Hin; exact Ho |].
+        intros l' c' Hc'. destruct (N.lt_ge_cases l' (N.of_nat j)) as [Hlt | Hge]; [exfalso | exact Hge].
+        apply (Hfirst (N.to_nat l') c'); [lia | rewrite N2Nat.id; exact Hc'].
+      + apply lowest_spec in Ho. destruct Ho as [l [Hc Hmin]].
+        destruct m as [| o0 m']; [contradiction |].
+        assert (H0 : In (N.of_nat j, o0) (state_cands en S p)) by (apply Hin; left; reflexivity).
+        pose proof (Hmin _ _ H0) as Hle.
+        destruct (N.eq_dec l (N.of_nat j)) as [-> | Ne]; [apply Hin; exact Hc | exfalso].
+        apply (Hfirst (N.to_nat l) o); [lia | rewrite N2Nat.id; exact Hc].
+    - split; [intros [] |]. intro H. apply in_map_iff in H. destruct H as [o [_ Ho]].
+      apply lowest_spec in Ho. destruct Ho as [l [Hc _]].
+      pose proof (cand_level_range s S l o R Hc) as Hrange.
+      apply (Hnone (N.to_nat l) o); [lia | rewrite N2Nat.id; exact Hc].
+  Qed.
+
+  (** *** the whole run *)
+  Theorem run_meaning_sub ws :
+    ambiguous_run en (start e) ws = false ->
+    match complete e en ws p with
+    | None => run_from Repaired (d_start d) a benv ws p = Ok (mkresult 1 [] [])
+    | Some (req, al) =>
+        exists reply, run_from Repaired (d_start d) a benv ws p = Ok (mkresult 0 reply [])
+                      /\ (forall x, In x reply <-> In x req) /\ incl req al
+    end.
+  Proof.
+    intro Hamb. pose proof (walk_words ws (d_start d) (start e) [] rel_start Hamb) as Hw.
+    unfold complete, run_from. destruct (run en (start e) ws) as [| k0 r0] eqn:Erun.
+    - rewrite Hw. cbn [obind]. reflexivity.
+    - destruct Hw as [t [Hwalk R]]. rewrite Hwalk. cbn [obind].
+      destruct (levels_lowest_sub t _ [] R) as [reply [Hr Hspec]]. rewrite Hr. cbn [obind rev List.app].
+      exists reply. split; [reflexivity | split; [exact Hspec |]].
+      intros x Hx. apply in_map_iff in Hx. destruct Hx as [o [Eo Ho]]. apply in_map_iff. exists o. split; [exact Eo | apply in_or_app; left; exact Ho].
   Qed.
 End Sub.
